@@ -13,7 +13,7 @@ from boltons import fileutils as fu   # noqa: E402
 assert os.path.realpath(fu.__file__).startswith(os.path.realpath(repo) + os.sep), fu.__file__
 from checks import fsfault            # noqa: E402
 
-dest = os.path.join(d, 'dest.dat')
+dest = os.path.join(d, scn.get('dest_name') or 'dest.dat')
 os.umask(scn.get('umask', 0o022))
 try:
     fsfault.do_save(fu, scn, dest)
